@@ -15,6 +15,14 @@ import (
 func init() {
 	f := "internal/native/wat2x64/func.go"
 	register(&Property{ID: "C02", Run: runC02, Mutants: []Mutant{
+		{Name: "x64 locals zeroed with a dword store", File: "internal/native/wat2x64/func.go", Old: "mov qword ptr [rbp%+d], 0 # local %s = 0", New: "mov dword ptr [rbp%+d], 0 # local %s = 0", Expect: "x64-local-init-width"},
+		{Name: "x64 element offset not scaled", File: "internal/native/wat2x64/table.go", Old: "off := (int(elem.Offset) + j) * IntSize", New: "off := int(elem.Offset) + j*IntSize", Expect: "x64-elem-offset-scaled"},
+		{Name: "x64 memory-return prologue stores rcx under every ABI", File: "internal/native/wat2x64/func.go", Old: "fnNative.Type.Return[1].Reg == 0 && p.cpuType == abi.X64Windows {", New: "fnNative.Type.Return[1].Reg == 0 {", Expect: "x64-caller-area-store-abi"},
+		{Name: "x64 br copies its results from the last to the first", File: "internal/native/wat2x64/func.go", Old: "\t\t\t\tfor i := 0; i < len(destScopeContex.Result); i++ {\n\t\t\t\t\tswitch xType := destScopeContex.Result[i]; xType {", New: "\t\t\t\tfor i := len(destScopeContex.Result) - 1; i >= 0; i-- {\n\t\t\t\t\tswitch xType := destScopeContex.Result[i]; xType {", Expect: "overlap-copy-direction :: wat2x64"},
+		{Name: "x64 float globals printed with %f", File: "internal/native/wat2x64/gas.go", Old: "fmt.Fprintf(w, \"%s: .long 0x%08X # float %v\\n\", name, math.Float32bits(v), v)", New: "fmt.Fprintf(w, \"%s: .float %f\\n\", name, v)", Expect: "float-literal-exact :: wat2x64"},
+		{Name: "riscv numeric locals count the results", File: "internal/native/wat2rv/helper.go", Old: "\t\tidx = idx - len(fn.Type.Params)\n\t\treturn fn.Locals[idx].Type", New: "\t\tidx = idx - len(fn.Type.Params) - len(fn.Type.Results)\n\t\treturn fn.Locals[idx].Type", Expect: "local-index-space :: wat2rv"},
+		{Name: "x64 i32.rem_s divides without the -1 guard", File: "internal/native/wat2x64/func.go", Old: "\t\tfmt.Fprintf(w, \"    cmp  r10d, -1\\n\")\n\t\tfmt.Fprintf(w, \"    je   %s\\n\", labelEnd)\n", New: "", Expect: "x64-rem-s-guard :: i32_rem_s"},
+		{Name: "x64 call loop bound skips the first parameter", File: "internal/native/wat2x64/func.go", Old: "\t\tfor k := len(argList) - 1; k >= 0; k-- {\n\t\t\tx := fnCallType.Params[k]\n\t\t\targList[k] = stk.Pop(x.Type)", New: "\t\tfor k := len(argList) - 1; k > 0; k-- {\n\t\t\tx := fnCallType.Params[k]\n\t\t\targList[k] = stk.Pop(x.Type)", Expect: "index-loop-covers-list"},
 		{Name: "x64 f32.neg flips the sign bit with a 64-bit xor", File: "internal/native/wat2x64/func.go", Old: "xor eax, 0x80000000", New: "xor rax, 0x80000000", Expect: "x64-imm-encodable :: f32.neg"},
 		{Name: "x64 memory.grow loads its i32 operand as a qword", File: "internal/native/wat2x64/func.go", Old: "fmt.Fprintf(w, \"    mov eax, dword ptr [rbp%+d]\\n\", sp0)\n\t\tfmt.Fprintf(w, \"    add rax, r10\\n\")", New: "fmt.Fprintf(w, \"    mov rax, qword ptr [rbp%+d]\\n\", sp0)\n\t\tfmt.Fprintf(w, \"    add rax, r10\\n\")", Expect: "x64-slot-width :: memory.grow"},
 		{Name: "the engine's memory.grow only compares the 32-bit sum with the maximum", File: "internal/3rdparty/wazero/internal/wasm/memory.go", Old: "if newPages > m.Max || newPages < currentPages {", New: "if newPages > m.Max {", Expect: "engine-grow-no-wrap"},
@@ -281,7 +289,8 @@ func runC02(c *Ctx) {
 	c.Explain = "Decides the instruction-template dispatcher of the native x86-64 back end (wat2x64): (1) every WAT instruction token has a template arm; (2) each fixed-signature arm pops/pushes the virtual operand stack exactly as the instruction's WebAssembly signature says (and the sibling translators wat2c/wat2la/wat2rv/wat2arm64 agree); " +
 		"(3) the emitted template contains the x86 instruction that implements the mnemonic's operation and signedness (setl/setb..., idiv/div, sar/shr, rol/ror, movsx/movzx, cvtt*, round* mode) and none of the confusable ones; " +
 		"(4) non-commutative templates load the left operand (second popped) first; (5) operand, result and memory access widths (byte/word/dword/qword) match the value types; remainder results come from rdx, quotients from rax. " +
-		"NOT decided: the full semantics of each assembly template (flags, traps, NaN handling), calls/blocks/branches, the runtime helpers, assembler and linker."
+		"(6) structural rules on the code around the templates: label lookup innermost-first, list pops last-to-first, every label an arm defines carries an id made at that site, literal immediates of 64-bit ALU instructions fit 32 bits, locals zeroed over the whole slot, numeric local indices params-then-locals, x rem_s -1 guarded, carried results moved upwards, slot addresses R0Base - n*8 - 8, no argument register written by name while arguments are loaded, element offsets scaled, float values emitted as bit patterns, the embedded engine's memory.grow cannot wrap. " +
+		"NOT decided: the full semantics of each assembly template (flags, traps, NaN handling), the stack model of blocks and branches beyond these rules, the runtime helpers, assembler and linker."
 	c.Trusted = []string{"go/packages, go/types (x/tools v0.29.0)", "embedded WebAssembly instruction table", "x86-64 mnemonic table in c02.go (condition codes, sign/zero extension, rounding immediates)"}
 	c.Exhaust = true
 	p := c.Load(LoadOpt{Light: true}, "./internal/wat/token", "./internal/native/wat2x64", "./internal/native/wat2la", "./internal/native/wat2rv", "./internal/native/wat2arm64", "./internal/wat/watutil/wat2c", "./internal/3rdparty/wazero/internal/wasm")
@@ -350,6 +359,13 @@ func runC02(c *Ctx) {
 		}
 	}
 	c.Min("overlap-copy-direction", "result-moving loops of the native translators", nCopy, 12)
+	nLoops := 0
+	for _, tr := range translators {
+		if pk := p.Pkg(tr.pkg); pk != nil && tr.name != "wat2c" {
+			nLoops += indexLoopRule(c, p, pk, nil)
+		}
+	}
+	c.Min("index-loop-covers-list", "index loops over lists in the native translators", nLoops, 40)
 	c02MemoryGrowLimit(c, p, x64)
 	c02ImmEncodable(c, p, x64, ins)
 	c02RemGuard(c, p, x64)
